@@ -31,9 +31,11 @@ NInit(fs) == funcs = fs /\ phase = "defaults" /\ entries = <<>> /\ fentries = <<
 \* Defaults: one clone per admissible arity, fewest arguments first, then the function itself
 ArityEntries(f, o) ==
   LET n == Len(f.params)
+      \* default_arg_suffix names the forms from the fewest arguments upwards; a list that is shorter than the
+      \* number of forms leaves the remaining forms to the numbering
       mk(k, j) == [name |-> f.name, params |-> SubSeq(f.params, 1, k),
-                   sfx |-> IF f.dsfx # <<>> THEN f.dsfx[j] ELSE f.sfx,
-                   local |-> f.dsfx # <<>> \/ f.sfx # "",
+                   sfx |-> IF j <= Len(f.dsfx) THEN f.dsfx[j] ELSE f.sfx,
+                   local |-> j <= Len(f.dsfx) \/ f.sfx # "",
                    tsfx |-> "", origin |-> o, tmpl |-> IsTemplate(f)]
   IN [j \in 1..(f.ndef + 1) |-> mk(n - f.ndef + j - 1, j)]
 
